@@ -493,6 +493,14 @@ def run(ctx, rep):
                     if is_index(r0, OFFS, 0):
                         cl_ok = True
             ok = end_ok and st_ok and cl_ok
+            if end_ok and not ok:
+                # the same two sources chosen by a match / if-let instead of a combinator
+                raw = unfield0(e)
+                raw_start = raw[3] if (isinstance(raw, tuple) and raw[0] == "binop") else None
+                srcs = {strip_ids(x) for x in value_sources(g, raw_start)} if raw_start is not None else set()
+                a_ = [x for x in srcs if open_start(x)]
+                b_ = [x for x in srcs if x not in a_ and is_index(x, OFFS, 0) and first_closed(x)]
+                ok = len(srcs) == 2 and len(a_) == 1 and len(b_) == 1
             detail = "end=%s start=%s" % (expr_s(end)[:50], expr_s(start)[:80])
     if ok:
         rep.ok("R11.5", "on_disk_size", "open.end - (first closed start | open start)", where=g.where(g.entry))
